@@ -512,6 +512,8 @@ impl Scenario for HostileMaster {
             }
         }
         let _ = &mut connected;
+        // "in whatever chunking": some requests arrive in two pieces with a wake-up of the outstation task in between
+        crate::verif::props::gen_out::sprinkle_splits(rng, &mut script);
         script.push(Op::LinkStatusRequest);
         script.push(Op::Request {
             func: refapp::FUNC_DELAY_MEASURE,
@@ -928,6 +930,8 @@ impl Scenario for HostileOutstation {
             iin1: 0,
             iin2: 0,
         });
+        // "in whatever chunking": some fragments arrive in two pieces with a channel message reaching the master in between
+        crate::verif::smast::sprinkle_split_replies(rng, &mut script);
         script.push(MOp::Sleep(timeout * 8 + 6000));
         if wire {
             // a parser sitting on a frame that was cut short takes what follows for its body: push it to its verdict
